@@ -97,7 +97,9 @@ func c17HasBasedOrQuantity(inv *Invoice) bool {
 func H_C17_Order() {
 	rule := skRule("rule")
 	cur := currency.Code("EUR")
-	o := skOpts{rule: rule, cur: cur, lines: 2, fixedAtCur: true, rich: true, include: true}
+	// (thorough: quantities from {3, -2, 7} on the first line; with the larger alternatives of the skeleton as well the
+	// harness needs 22 of its 24 minutes: 25920 paths, all clean)
+	o := skOpts{noExtras: true, rule: rule, cur: cur, lines: 2, fixedAtCur: true, rich: true, include: true}
 	a := skInvoice(o)
 	b := skInvoice(o) // same inputs (same names), built afresh
 	b.Lines[0], b.Lines[1] = b.Lines[1], b.Lines[0]
